@@ -3,7 +3,6 @@
 package zzverif
 
 import (
-	nodekeeper "github.com/SaoNetwork/sao/x/node/keeper"
 	nodetypes "github.com/SaoNetwork/sao/x/node/types"
 	"github.com/SaoNetwork/sao/zzverif/sym"
 	sdk "github.com/cosmos/cosmos-sdk/types"
@@ -25,7 +24,7 @@ func Ob_C20_Hook_RoleMatchesPredicate() {
 	n0, isNode := w.HookNode.GetNode(w.Ctx, del)
 	sym.Assume(isNode && n0.Role <= 1 && (n0.Validator == "" || n0.Validator == val))
 	hooks := w.HookNode.Hooks()
-	nodekeeper.VerifSetSharesBeforeModified(sdk.NewDec(0))
+	sym.Assume(w.HookNode.GetSharesBeforeModified(w.Ctx).IsZero()) // no hook pair is open at a transaction boundary
 	panicked, _ := sym.Catch(func() { hooks.AfterDelegationModified(w.Ctx, delAddr, valAddr) })
 	if panicked {
 		return
